@@ -236,32 +236,61 @@ pub(crate) fn manifests_missing_for_desired(
         return false;
     }
 
-    let mut used: Vec<bool> = vec![false; roots.len()];
-    for tp in desired.keys() {
+    // What each used root's manifest must list: (relative path, sha256) of its desired files.
+    let mut expected: Vec<Option<std::collections::BTreeSet<(String, String)>>> =
+        vec![None; roots.len()];
+    for (tp, desired_file) in desired {
         if let Some(idx) = crate::roots::best_root_idx(roots, &tp.target, &tp.path) {
-            used[idx] = true;
+            let rel = match tp.path.strip_prefix(&roots[idx].root) {
+                Ok(rel) => rel.to_string_lossy().replace('\\', "/"),
+                Err(_) => continue,
+            };
+            expected[idx]
+                .get_or_insert_with(Default::default)
+                .insert((rel, crate::hash::sha256_hex(&desired_file.bytes)));
         }
     }
 
     for (idx, root) in roots.iter().enumerate() {
-        if !used[idx] {
-            continue;
-        }
-
         let preferred = manifest_path_for_target(&root.root, &root.target);
-        if preferred.exists() {
-            continue;
-        }
 
-        let legacy = legacy_manifest_path(&root.root);
-        if !legacy.exists() {
-            return true;
-        }
+        let Some(expected) = &expected[idx] else {
+            // A root without desired files needs no manifest, but an existing one that is
+            // unusable or still lists entries is stale (e.g. left behind by an interrupted apply)
+            // and is rewritten.
+            if preferred.exists() {
+                let (manifest, _warnings) = read_target_manifest_soft(&preferred, &root.target);
+                if !manifest.is_some_and(|m| m.managed_files.is_empty()) {
+                    return true;
+                }
+            }
+            continue;
+        };
+
+        let path = if preferred.exists() {
+            preferred
+        } else {
+            let legacy = legacy_manifest_path(&root.root);
+            if !legacy.exists() {
+                return true;
+            }
+            legacy
+        };
 
         // Avoid cross-target collisions: only treat legacy manifests as present when they belong
-        // to the expected target.
-        let (manifest, _warnings) = read_target_manifest_soft(&legacy, &root.target);
-        if manifest.is_none() {
+        // to the expected target. A manifest that does not list exactly this root's desired files
+        // (e.g. left behind by an interrupted apply) counts as missing too, so that a re-run
+        // rewrites it even when no file needs to change.
+        let (manifest, _warnings) = read_target_manifest_soft(&path, &root.target);
+        let Some(manifest) = manifest else {
+            return true;
+        };
+        let listed: std::collections::BTreeSet<(String, String)> = manifest
+            .managed_files
+            .into_iter()
+            .map(|f| (f.path, f.sha256))
+            .collect();
+        if &listed != expected {
             return true;
         }
     }
